@@ -35,13 +35,16 @@ PROPS = {
                       "the implementation on generated inputs on every run.",
         "level_note": "Theorems are about the model at α := ℝ; the tie to /repo is the sampled "
                       "correspondence (bit-exact on Float). Trusted: Lean kernel, Mathlib, harness.",
-        "lean_modules": ["Astral.Props.C15", "Astral.Props.C15Inv"],
+        "lean_modules": ["Astral.Props.C15", "Astral.Props.C15Inv", "Astral.Props.C15Ord",
+                         "Astral.Props.C15Date"],
         "theorems": [
             "Astral.C15.jd_gregorian", "Astral.C15.meeusInt_eq_ord", "Astral.C15.jd_time",
             "Astral.C15.jd_julian_offset", "Astral.C15.century_inverse",
             "Astral.C15.century_inverse'", "Astral.C15.mjd_eq",
             "Astral.C15Inv.inverse_core", "Astral.C15Inv.time_split", "Astral.C15Inv.jd_roundtrip",
-            "Astral.C15Inv.jd_roundtrip_from_1582",
+            "Astral.C15Inv.jd_roundtrip_from_1582", "Astral.C15Ord.monthDay_table",
+            "Astral.C15Ord.ordToYMD_spec", "Astral.C15Date.jd_date", "Astral.C15Date.jd_step",
+            "Astral.C15Date.jd_wall", "Astral.C15Date.jd_roundtrip_wall",
         ],
         "groups": [G("corr_julian", "julian", 6000, 300000)],
         "unproved": [],
